@@ -622,7 +622,19 @@ func pickSlots(r *rand.Rand, n, k int) []int {
 
 func genProm(r *rand.Rand, c *Case, p int) {
 	total := drawTotal(r, c.Class == "prom.query_range")
-	n := seriesCount(r, total)
+	genPromSized(r, c, p, total, seriesCount(r, total))
+}
+
+// bigPromCase: a query_range answer of several MiB (a few series of ~9000 points each), for the clients on a
+// slow link in the concurrent lane.
+func bigPromCase(r *rand.Rand, idx int) *Case {
+	c := &Case{Idx: idx, Class: "prom.query_range"}
+	n := 4 + r.Intn(4)
+	genPromSized(r, c, 0, n*9000, n)
+	return c
+}
+
+func genPromSized(r *rand.Rand, c *Case, p int, total, n int) {
 	if c.Class == "prom.query.scalar" {
 		n = 1
 		total = 1 + r.Intn(3)
